@@ -24,6 +24,12 @@ pub enum Case06 {
     /// one instance of `class` whose Ref-typed property `prop` (any spelling) points at 0 = a later sibling,
     /// 1 = an earlier sibling, 2 = itself, 3 = its child
     RefProp { class: String, prop: String, target: u8 },
+    /// one instance carrying two properties (any two reachable spellings that are not the same
+    /// property); value indices follow `i`
+    Pair { class: String, p: String, q: String, i: usize },
+    /// three same-class siblings that all carry `prop` (any spelling), with three different values
+    /// where the alphabet has them, the middle one nested under the first when `nested`
+    Siblings { class: String, prop: String, nested: bool },
     /// one instance carrying a property under its canonical name *and* under an alias, with
     /// different values (both insertion orders): which one counts is the implementation's
     /// choice, but it is one DOM and the two formats must read it back alike
@@ -338,6 +344,46 @@ pub fn judge(c: &Case06) -> Vec<(String, String)> {
             let dom = WeakDom::new(InstanceBuilder::new("DataModel").with_child(b));
             judge_dom(&dom, &set, "all-at-once", &format!("{} with all properties, value index {}", class, i))
         }
+        Case06::Pair { class, p, q, i } => {
+            let (tp, tq) = match (declared_type(class, p), declared_type(class, q)) {
+                (Some(a), Some(b)) => (a, b),
+                _ => return vec![],
+            };
+            let (cp, cq) = (canonical_of(class, p), canonical_of(class, q));
+            if cp == cq || tp == VariantType::Ref || tq == VariantType::Ref {
+                return vec![];
+            }
+            let (ap, aq) = (value_alphabet(tp), value_alphabet(tq));
+            if ap.is_empty() || aq.is_empty() {
+                return vec![];
+            }
+            let b = InstanceBuilder::new(class.as_str()).with_name("pair").with_property(p.as_str(), ap[*i % ap.len()].clone()).with_property(q.as_str(), aq[(*i + 1) % aq.len()].clone());
+            let dom = WeakDom::new(InstanceBuilder::new("DataModel").with_child(b));
+            let set: BTreeSet<String> = [cp, cq].into_iter().collect();
+            judge_dom(&dom, &set, &{
+                let (a, b) = (format!("{:?}", tp), format!("{:?}", tq));
+                if a <= b { format!("pair|{}+{}", a, b) } else { format!("pair|{}+{}", b, a) }
+            }, &format!("{} carrying {} and {} (value index {})", class, p, q, i))
+        }
+        Case06::Siblings { class, prop, nested } => {
+            let ty = match declared_type(class, prop) {
+                Some(t) if t != VariantType::Ref => t,
+                _ => return vec![],
+            };
+            let a = value_alphabet(ty);
+            if a.is_empty() {
+                return vec![];
+            }
+            let mk = |k: usize| InstanceBuilder::new(class.as_str()).with_name(format!("s{}", k)).with_property(prop.as_str(), a[(a.len() - 1 - k % a.len()) % a.len()].clone());
+            let dom = if *nested {
+                WeakDom::new(InstanceBuilder::new("DataModel").with_child(mk(0).with_child(mk(1))).with_child(mk(2)))
+            } else {
+                WeakDom::new(InstanceBuilder::new("DataModel").with_child(mk(0)).with_child(mk(1)).with_child(mk(2)))
+            };
+            let mut set = BTreeSet::new();
+            set.insert(canonical_of(class, prop));
+            judge_dom(&dom, &set, &format!("siblings|{:?}", ty), &format!("three {} carrying {} with the last three values of {:?}{}", class, prop, ty, if *nested { ", one nested" } else { "" }))
+        }
         Case06::RefProp { class, prop, target } => {
             if declared_type(class, prop) != Some(VariantType::Ref) {
                 return vec![];
@@ -439,6 +485,38 @@ pub fn cases(tier: Tier) -> Vec<Case06> {
             }
         }
     }
+    for c in &out {
+        if let Case06::Single { class, prop, value: 0 } = c {
+            for nested in [false, true] {
+                extra.push(Case06::Siblings { class: class.clone(), prop: prop.clone(), nested });
+            }
+        }
+    }
+    // pairs of properties on one instance: quick = every pair in which at least one spelling is
+    // declared by the class itself, thorough = every pair of reachable spellings
+    for c in &classes {
+        let own: BTreeSet<String> = d.classes.get(c.as_str()).map(|cd| cd.properties.keys().map(|k| k.to_string()).collect()).unwrap_or_default();
+        let mut names: BTreeSet<String> = BTreeSet::new();
+        if let Some(chain) = specdb::class_chain(c) {
+            for cc in chain {
+                for p in cc.properties.keys() {
+                    names.insert(p.to_string());
+                }
+            }
+        }
+        let names: Vec<String> = names.into_iter().filter(|p| p != "UniqueId" && p != "Name" && declared_type(c, p).map(|t| t != VariantType::Ref).unwrap_or(false)).collect();
+        for (x, p) in names.iter().enumerate() {
+            for q in names.iter().skip(x + 1) {
+                if tier == Tier::Quick && !(own.contains(p) || own.contains(q)) {
+                    continue;
+                }
+                if canonical_of(c, p) == canonical_of(c, q) {
+                    continue;
+                }
+                extra.push(Case06::Pair { class: c.clone(), p: p.clone(), q: q.clone(), i: x });
+            }
+        }
+    }
     out.extend(extra);
     out
 }
@@ -469,7 +547,7 @@ pub fn check(run: &Run) -> Value {
         "outcomes": total.outcomes,
         "samples": total.samples.iter().map(|s| serde_json::from_str::<Value>(s).unwrap()).collect::<Vec<_>>(),
         "exhaustive": true,
-        "rule": "every class of the database x every reachable serializable, non-migrating property name (canonical and alias spellings) x alphabet values of its declared type as a single-property instance; one all-properties instance per class; Ref topologies on known classes. Each DOM is written and read by rbx_binary and by rbx_xml, the two read-backs are compared (NaN as a class, restricted to explicitly set properties), and each read-back is converted to the other format and back",
+        "rule": "every class of the database x every reachable serializable, non-migrating property name (canonical and alias spellings) x alphabet values of its declared type as a single-property instance; all-properties instances per class; every pair of property spellings on one instance (quick: pairs with at least one spelling declared by the class itself; thorough: all reachable pairs); three same-class siblings (flat and nested) carrying each spelling with different values; Ref topologies on known classes. Each DOM is written and read by rbx_binary and by rbx_xml, the two read-backs are compared (NaN as a class, restricted to explicitly set properties), and each read-back is converted to the other format and back",
     })
 }
 
